@@ -40,6 +40,8 @@ impl Outcome {
 #[derive(Clone, Debug)]
 pub struct Plan {
     pub crash_at: Option<u64>,
+    /// cut the compilation short at this compilation step
+    pub compile_crash_at: Option<u64>,
     pub collect: CollectPlan,
     pub budget: u64,
     pub alloc_mode: u8,
@@ -55,6 +57,7 @@ impl Plan {
     pub fn plain() -> Plan {
         Plan {
             crash_at: None,
+            compile_crash_at: None,
             collect: CollectPlan::Shipped,
             budget: 200_000,
             alloc_mode: alloc::PLAIN,
@@ -77,6 +80,7 @@ pub struct RunResult {
     pub stats: RunStats,
     pub log_hash: u64,
     pub steps: u64,
+    pub compile_steps: u64,
     pub crash_state: Option<CrashState>,
     pub effects: u64,
     pub effect_steps: Vec<u64>,
@@ -267,6 +271,7 @@ pub fn begin_run(plan: &Plan, eval_id: u64, thread_id: usize, sched: Option<std:
         ctx.eval_id = eval_id;
         ctx.budget = plan.budget;
         ctx.crash_at = plan.crash_at;
+        ctx.compile_crash_at = plan.compile_crash_at;
         ctx.collect = plan.collect.clone();
         ctx.audit_every_step = plan.audit_every_step;
         ctx.exact = plan.exact;
@@ -400,6 +405,7 @@ pub fn finish_run(
             stats: ctx.stats.clone(),
             log_hash: ctx.fold.0,
             steps: ctx.step,
+            compile_steps: ctx.compile_step,
             crash_state: ctx.crash_state.take(),
             effects: ctx.effects,
             effect_steps: std::mem::take(&mut ctx.effect_steps),
@@ -452,6 +458,7 @@ pub fn finish_run_defer(r: std::thread::Result<Result<Object, Error>>, eval_id: 
             stats: ctx.stats.clone(),
             log_hash: ctx.fold.0,
             steps: ctx.step,
+            compile_steps: ctx.compile_step,
             crash_state: ctx.crash_state.take(),
             effects: ctx.effects,
             effect_steps: std::mem::take(&mut ctx.effect_steps),
